@@ -193,6 +193,7 @@ CHECKS["C10"] = {
         {"pkg": "revocation", "run": "TestVF_C10_Single", "shards": {"quick": 8, "thorough": 16}, "timeout": {"quick": 500, "thorough": 3400}},
         {"pkg": "revocation", "run": "TestVF_C10_Double", "rapid": {"quick": 400, "thorough": 3000}, "shards": {"quick": 2, "thorough": 16}},
         {"pkg": "revocation", "run": "TestVF_C10_HashEqual", "rapid": {"quick": 300, "thorough": 3000}},
+        {"pkg": "revocation", "run": "TestVF_C10_WireStructure"},
         {"pkg": "revocation", "run": "TestVF_C10_Prepend", "shards": {"quick": 4, "thorough": 16}},
         {"pkg": "revocation", "fuzz": "FuzzVF_C10_UpdateJSON", "run": "FuzzVF_C10_UpdateJSON", "tiers": ["thorough"], "seconds": {"thorough": 150}, "workers": 8},
         {"pkg": "revocation", "fuzz": "FuzzVF_C10_UpdateCBOR", "run": "FuzzVF_C10_UpdateCBOR", "tiers": ["thorough"], "seconds": {"thorough": 150}, "workers": 8},
